@@ -24,7 +24,7 @@ def clientFns : List (String × FnDecl) :=
     ENVIRONMENT (dictionary: one input, one event each) instead of being interpreted -/
 def ctxE (inp : Nat → Value) : Ctx := { Code.ctxWith 0 DictErrors.ext [] inp with fns := clientFns }
 
-rs_register_eqns DictErrors.call DictErrors.method DictErrors.deref DictErrors.mkErrno
+rs_register_eqns DictErrors.call DictErrors.method DictErrors.deref DictErrors.mkErrno DictErrors.errFrom
 
 attribute [rs_eval] DictErrors.ext
   DictErrors.nullPtr DictErrors.cptr DictErrors.cstr DictErrors.cstring DictErrors.outPtr DictErrors.heapPtr
